@@ -131,6 +131,7 @@ namespace {
         ops.push(std::move(op));
       }
       p["sched"] = gen_sched(sched, T, uint64_t(n_ops) * 8);
+      p["sched"]["cap"] = J(60000000LL); // every engine construction registers thousands of functions, each a lock/unlock yield
       return p;
     }
 
